@@ -5,6 +5,7 @@
 
 struct SorterSpec {
 	size_t max_mem = 0;		// 0 = leave default
+	size_t entry_overhead = 0;	// from sorter_entry_overhead(); added per entry by the spill oracle
 	bool set_zero = false;		// call set_max_memory(0): clamped to the minimum (1 byte in the MTBL_VERIF build)
 	std::string tmpdir;
 	mtbl_threadpool *pool = nullptr;
@@ -19,6 +20,14 @@ struct SorterSpec {
 	std::vector<std::pair<Bytes, Bytes>> adds;
 	std::string outpath;		// for finish == 1
 };
+// How many bytes the sorter charges per entry on top of key + value.  The manual defines the limit as 'the total number
+// of bytes allocated for key-value entries'; what that is per entry is the implementation's business, so it is measured,
+// not assumed: once per process two calibration sorts (different entry sizes, limits that no sum hits exactly) are run
+// and the overhead is solved from the add at which the first spill file appears.  If the two do not agree on one
+// constant the accounting is not 'constant + key + value' and 0 is used (key + value bytes are a lower bound of any
+// accounting).  Call it outside the part of a run whose temp files are counted.
+size_t sorter_entry_overhead(const std::string &scratch_dir);
+
 struct SorterOutcome {
 	size_t chunks_spilled = 0;	// mkstemp calls seen
 	size_t limit_crossings = 0;	// how often the model says the buffered bytes reached the limit
